@@ -1,8 +1,9 @@
 import OrsoVerif.Model.PyVal
 import OrsoVerif.Model.Kernels
+import OrsoVerif.Model.CallSites
 /-! Driver glue for C10. -/
 namespace Drv.C10
-open Kernels
+open Kernels CallSites
 
 def decodeRow : PyVal → Option (RowObj PyVal)
   | .list [.bool t, .list cells] => some ⟨t, cells⟩
@@ -24,6 +25,22 @@ def asStrs : List PyVal → Option (List String)
   | .str s :: xs => (asStrs xs).map (s :: ·)
   | _ => none
 
+def asRefs : List PyVal → Option (List ColRef)
+  | [] => some []
+  | .int i :: xs => (asRefs xs).map (ColRef.idx i :: ·)
+  | .str s :: xs => (asRefs xs).map (ColRef.name s :: ·)
+  | _ => none
+
+def decodeLenRow : PyVal → Option (RowObj (Option Nat))
+  | .list [.bool t, .list cells] => (decodeLens cells).map fun c => ⟨t, c⟩
+  | _ => none
+
+def encPub : PubOutcome PyVal → List PyVal
+  | .many m => [.str "many", .list (m.map .list)]
+  | .one c => [.str "one", .list c]
+  | .raises c => [.str "raises", .str c]
+  | .oob => [.str "oob"]
+
 def handle (op : String) (args : List PyVal) : Option (List PyVal) :=
   match op, args with
   | "collect", [.list rows, .list cols, .int limit] => do
@@ -38,7 +55,30 @@ def handle (op : String) (args : List PyVal) : Option (List PyVal) :=
     pure [.int (dataWidth lens)]
   | "extract", [.list fields, .dict d] => do
     let fields ← asStrs fields
-    pure [.list (DictRow.extract .none fields d)]
+    match extractLoop .none fields d with
+    | some r => pure [.list r]
+    | none => pure [.str "oob"]
+  | "pcollect", [.list names, .list rows, .list cols, .bool single, limit] => do
+    let names ← asStrs names
+    let rows ← rows.mapM decodeRow
+    let cols ← asRefs cols
+    let limit ← (match limit with | .none => some none | .int l => some (some l) | _ => none)
+    pure (encPub (publicCollect names rows cols single limit))
+  | "rownew", [.list fields, .bool tuplesOnly, .dict d] => do
+    let fields ← asStrs fields
+    match rowNew .none (createClass fields tuplesOnly) (.dict d) with
+    | some r => pure [.str "some", .list r]
+    | none => pure [.str "none"]
+  | "rownew", [.list fields, .bool tuplesOnly, .list t] => do
+    let fields ← asStrs fields
+    match rowNew .none (createClass fields tuplesOnly) (.tuple t) with
+    | some r => pure [.str "some", .list r]
+    | none => pure [.str "none"]
+  | "dwidths", [.list names, .list rows, .int limit] => do
+    let names ← asStrs names
+    let rows ← rows.mapM decodeLenRow
+    pure [.list ((displayDataWidths names rows limit).map fun w =>
+      match w with | some n => PyVal.int n | none => PyVal.none)]
   | _, _ => none
 
 end Drv.C10
